@@ -19,12 +19,12 @@ Local Open Scope N_scope.
 
 (* ------------------------------------------------------------------ goal: the clause over histories *)
 
-(* C05_resume_full for histories of the class of c02_discovery_partial: disc_scope_b h =
-   wf_b h && lib_ok_b LNone h && no block with an empty parent id.  The conclusion is stronger than the one
-   of C05_resume_full: the stacks are equal block by block, not only id by id. *)
+(* The hypotheses of C05_resume_full (every well-formed history in the class lib_ok_b, any first streamable block,
+   any retention); the conclusion is stronger than the one of C05_resume_full: the burst leaves the consumer in the
+   very state of the never-disconnected consumer - the stacks are equal block by block, not only id by id. *)
 Definition C05_resume_history : Prop :=
   forall first kept (h : list block) (k m : nat) ek ck cm evs,
-    disc_scope_b h = true ->
+    wf_b h = true -> lib_ok_b LNone h = true ->
     let cfg := hub_config first kept in
     let tr := fk_run cfg (fs_init LNone) h in
     let upto n := concat (map fst (firstn n tr)) in
@@ -35,31 +35,14 @@ Definition C05_resume_history : Prop :=
     blocks_from_cursor (state_after cfg (fs_init LNone) h m) (ev_cursor ek) = BOk evs ->
     let ck' := mkCons (cs_stack ck)
                       (length (filter (fun b => bnum b <=? rn (elib ek)) (cs_stack ck))) true in
-    exists c', cons_fold ck' evs = Some c' /\ cs_stack c' = cs_stack cm /\ cs_nf c' = cs_nf cm.
-
-(* it is C05_resume_full restricted to histories without empty parent ids *)
-Definition C05_resume_full_no_empty_parent : Prop :=
-  forall first kept (h : list block) (k m : nat) ek ck cm evs,
-    wf_b h = true -> lib_ok_b LNone h = true -> forallb (fun b => negb (bparent b =? 0)) h = true ->
-    let cfg := hub_config first kept in
-    let tr := fk_run cfg (fs_init LNone) h in
-    let upto n := concat (map fst (firstn n tr)) in
-    nth_error (upto (length tr)) k = Some ek -> (estep ek = SNew \/ estep ek = SUndo) ->
-    (k < length (upto m))%nat ->
-    cons_fold cons0 (firstn (S k) (upto (length tr))) = Some ck ->
-    cons_fold cons0 (upto m) = Some cm ->
-    blocks_from_cursor (state_after cfg (fs_init LNone) h m) (ev_cursor ek) = BOk evs ->
-    let ck' := mkCons (cs_stack ck)
-                      (length (filter (fun b => bnum b <=? rn (elib ek)) (cs_stack ck))) true in
-    exists c', cons_fold ck' evs = Some c' /\
-               map bid (cs_stack c') = map bid (cs_stack cm) /\ cs_nf c' = cs_nf cm.
+    cons_fold ck' evs = Some cm.
 
 (* the consumers of the statement always exist: no call fails, the consumer accepts every prefix of the
    events, and the states the burst is asked in are well formed (so every request is answered by a
    burst or by "no source", Spec/C05_Through_Spec.C05_total) *)
 Definition C05_history_total : Prop :=
   forall first kept (h : list block),
-    disc_scope_b h = true ->
+    wf_b h = true -> lib_ok_b LNone h = true ->
     let cfg := hub_config first kept in
     let tr := fk_run cfg (fs_init LNone) h in
     length tr = length h /\ Forall (fun x => snd x = ROk) tr /\
@@ -105,7 +88,7 @@ Definition C05_meets (s : fstate) (Sm : list block) (nf : nat) (e : event) (ck :
    reaches the LIB and still contains the cursor LIB (otherwise: no source, c05_no_lib_no_source) *)
 Definition C05_cursor_meets_hypotheses : Prop :=
   forall first kept (h : list block) (k m : nat) ek ck hd sg,
-    disc_scope_b h = true ->
+    wf_b h = true -> lib_ok_b LNone h = true ->
     let cfg := hub_config first kept in
     let tr := fk_run cfg (fs_init LNone) h in
     let upto n := concat (map fst (firstn n tr)) in
